@@ -506,7 +506,7 @@ type spec struct {
 	seeds    map[int]bool
 	deps     map[dep]bool
 	final    map[int]bool
-	dangling bool // a processed call dereferences the undefined app: the real code panics (C20's subject)
+	dangling bool // a processed call names an app that is not defined (drawn like any other since a405748)
 }
 
 func (c *Case) specify() *spec {
@@ -554,9 +554,7 @@ func (c *Case) specify() *spec {
 			}
 			if cl.a >= len(c.Apps) {
 				sp.dangling = true
-				continue
-			}
-			if c.Apps[cl.a].Human {
+			} else if c.Apps[cl.a].Human {
 				continue
 			}
 			if !hidden(cl.a, cl.e) {
@@ -590,12 +588,15 @@ func (c *Case) specify() *spec {
 	}
 	// pass 3: calls among the final apps
 	for i := range sp.final {
+		if i >= len(c.Apps) {
+			continue
+		}
 		for _, e := range c.Apps[i].Eps {
 			if e.ID == 0 {
 				continue
 			}
 			for _, cl := range callsOf(e.Body) {
-				if !sp.final[cl.a] || cl.a >= len(c.Apps) || c.Apps[cl.a].Human {
+				if !sp.final[cl.a] || (cl.a < len(c.Apps) && c.Apps[cl.a].Human) {
 					continue
 				}
 				if !hidden(cl.a, cl.e) {
@@ -662,6 +663,9 @@ func (c *Case) parseInts(txt string, clustered bool) ([]arrow, string) {
 			l = short(a.Name)
 		}
 		label2app[l] = append(label2app[l], i)
+	}
+	if c.Dangling != "" { // an app that is called but not defined is drawn under its name
+		label2app[c.Dangling] = append(label2app[c.Dangling], len(c.Apps))
 	}
 	alias := map[string]int{}
 	var out []arrow
@@ -768,12 +772,11 @@ func judge(ctx *common.Ctx, c *Case, o *Obs) map[string][]arrow {
 		return nil
 	}
 	sp := c.specify()
+	if sp.dangling {
+		ctx.Hist("calls-an-undefined-app")
+	}
 	if o.Panic {
-		if sp.dangling {
-			ctx.Hist("panic:undefined-target-app(C20)")
-		} else {
-			ctx.Fail("panic:unexpected", "MakeBuilderfromStmt panicked on a model without undefined targets: "+o.PanicMsg, rp)
-		}
+		ctx.Fail("panic:builder", "MakeBuilderfromStmt panicked: "+o.PanicMsg, rp)
 		return nil
 	}
 	ex := c.excl()
@@ -814,7 +817,8 @@ func judge(ctx *common.Ctx, c *Case, o *Obs) map[string][]arrow {
 				continue
 			}
 			for _, cl := range callsOf(e.Body) {
-				if ex[cl.a] || cl.a >= len(c.Apps) || c.Apps[cl.a].Human {
+				// an app that is called but not defined is neither human nor hidden
+				if ex[cl.a] || (cl.a < len(c.Apps) && c.Apps[cl.a].Human) {
 					continue
 				}
 				if p := c.ep(cl.a, cl.e); p != nil && p.Hidden {
@@ -826,7 +830,7 @@ func judge(ctx *common.Ctx, c *Case, o *Obs) map[string][]arrow {
 			}
 		}
 	}
-	if !sp.dangling {
+	{
 		// the whole list against the set-level specification of the three passes
 		// (not demanded by the property, so recorded only: the Coq model is the judge of the exact list)
 		for d := range sp.deps {
@@ -914,19 +918,7 @@ func judge(ctx *common.Ctx, c *Case, o *Obs) map[string][]arrow {
 	}
 	// EPA
 	if txt := o.Views["epa"]; strings.HasPrefix(txt, "PANIC: ") {
-		// the EPA renderer dereferences the target endpoint of every dependency; a call to an endpoint that
-		// does not exist is a dangling reference (C20's subject), anything else is ours
-		missing := false
-		for d := range got {
-			if c.ep(d[2], d[3]) == nil {
-				missing = true
-			}
-		}
-		if missing {
-			ctx.Hist("panic:epa-undefined-target-endpoint(C20)")
-		} else {
-			ctx.Fail("view:epa:panic", "EPA view panicked: "+txt, replay{*c, "epa"})
-		}
+		ctx.Fail("view:epa:panic", "EPA view panicked: "+txt, replay{*c, "epa"})
 	} else {
 		rpv := replay{*c, "epa"}
 		ea, bad := c.parseEPA(txt)
